@@ -155,6 +155,10 @@ func (r *armoredReader) Read(p []byte) (int, error) {
 		// The encoder never emits an empty body line.
 		return 0, r.setErr(errors.New("empty line in armor body"))
 	}
+	if bytes.ContainsAny(line, "\r\n") {
+		// The base64 decoder would silently skip these.
+		return 0, r.setErr(errors.New("unexpected newline character in armor body"))
+	}
 	r.unread = r.buf[:]
 	n, err := base64.StdEncoding.Strict().Decode(r.unread, line)
 	if err != nil {
